@@ -2,6 +2,7 @@ import Kopf.Drv.Json
 import Kopf.Drv.C02
 import Kopf.Drv.C05
 import Kopf.Model.C14_Resume
+import Kopf.Model.C14_Results
 open Lean
 namespace Kopf.Drv.C14
 open Kopf.C14 Kopf
@@ -27,43 +28,62 @@ def memJson : Option Mem → Json
   | some m => Json.mkObj [("noticed", match m.noticed with | some b => .bool b | none => .null), ("fullyHandled", .bool m.fullyHandled),
                           ("resumed", .arr (m.resumed.map Json.str).toArray)]
 
+/-- the arguments of one processing cycle (shared by `C14.step` and `C14.stepR`) -/
+def stepArgs? (j : Json) : Option (List Decl × Option Mem × C02.Store × Event × List String) := do
+  let decls ← (← jArr? (← jField? j "decls")).mapM declOf?
+  let mem ← memOf? (← jField? j "mem")
+  let flags ← (← jArr? (← jField? j "flags")).mapM jBool?
+  let (byListing, deleted, marked, blocked, oldAbsent, diffNonEmpty, suppressed) ←
+    match flags with
+    | [a, b, c, d, e, f, g] => some (a, b, c, d, e, f, g)
+    | _ => none
+  let matched ← jStrList? (← jField? j "matched")
+  let lifecycle ← jStr? (← jField? j "lifecycle") >>= C02.lifecycleOf?
+  let limitsL ← (← C02.objPairs? (← jField? j "limits")).mapM (fun (k, v) => do pure (k, ← C02.limitsOf? v))
+  let pL ← (← C02.objPairs? (← jField? j "P")).filterMapM (fun (k, v) =>
+    match v with
+    | .null => some none
+    | v => do let r ← C02.recOf? v; pure (some (k, r)))
+  let oL ← (← C02.objPairs? (← jField? j "outcomes")).mapM (fun (k, v) => do pure (k, ← C02.outcomeOf? v))
+  let now ← jInt? (← jField? j "now")
+  let now1 ← jInt? (← jField? j "now1")
+  let univ ← jStrList? (← jField? j "universe")
+  let missing : Kopf.C02.Outcome := { final := false, delay := some (-1), error := true, subrefs := ["<no-outcome>"] }
+  let e : Event := {
+    byListing, deleted, marked, blocked, oldAbsent, diffNonEmpty, suppressed,
+    matchF := fun i => matched.contains i,
+    limits := fun i => (C02.lookupD limitsL i).getD { timeout := none, retries := none },
+    lifecycle, now, now1,
+    exec := fun i _ => (C02.lookupD oL i).getD missing }
+  some (decls, mem, C02.lookupD pL, e, univ)
+
+def stepJson' (decls : List Decl) (mem : Option Mem) (e : Event) (univ : List String) (r : StepResult) : Json :=
+  let c := causeOf (recall mem e) e
+  Json.mkObj [
+    ("mem", memJson r.mem),
+    ("reason", .str (reasonStr c.reason)),
+    ("selected", .arr ((cfgOf decls (recall mem e) e).selected.map Json.str).toArray),
+    ("invoked", .arr (r.invoked.map (fun (i, n) => Json.arr #[.str i, .num (JsonNumber.fromNat n)])).toArray),
+    ("P", Json.mkObj (univ.map (fun i => (i, match r.P i with | some rc => C02.recJson rc | none => .null)))),
+    ("closed", .bool r.closed)]
+
+def shapeOf? (j : Json) : Option ResultShape := do
+  match (← (← jArr? j).mapM jBool?) with
+  | [a, b, c, d, e] => some { isNone := a, isMapping := b, copyable := c, jsonRaw := d, jsonPatch := e }
+  | _ => none
+
 def handle : DrvHandler := fun op args =>
   match op, args with
   | "C14.step", [j] => do
-      let decls ← (← jArr? (← jField? j "decls")).mapM declOf?
-      let mem ← memOf? (← jField? j "mem")
-      let flags ← (← jArr? (← jField? j "flags")).mapM jBool?
-      let (byListing, deleted, marked, blocked, oldAbsent, diffNonEmpty, suppressed) ←
-        match flags with
-        | [a, b, c, d, e, f, g] => some (a, b, c, d, e, f, g)
-        | _ => none
-      let matched ← jStrList? (← jField? j "matched")
-      let lifecycle ← jStr? (← jField? j "lifecycle") >>= C02.lifecycleOf?
-      let limitsL ← (← C02.objPairs? (← jField? j "limits")).mapM (fun (k, v) => do pure (k, ← C02.limitsOf? v))
-      let pL ← (← C02.objPairs? (← jField? j "P")).filterMapM (fun (k, v) =>
-        match v with
-        | .null => some none
-        | v => do let r ← C02.recOf? v; pure (some (k, r)))
-      let oL ← (← C02.objPairs? (← jField? j "outcomes")).mapM (fun (k, v) => do pure (k, ← C02.outcomeOf? v))
-      let now ← jInt? (← jField? j "now")
-      let now1 ← jInt? (← jField? j "now1")
-      let univ ← jStrList? (← jField? j "universe")
-      let missing : Kopf.C02.Outcome := { final := false, delay := some (-1), error := true, subrefs := ["<no-outcome>"] }
-      let e : Event := {
-        byListing, deleted, marked, blocked, oldAbsent, diffNonEmpty, suppressed,
-        matchF := fun i => matched.contains i,
-        limits := fun i => (C02.lookupD limitsL i).getD { timeout := none, retries := none },
-        lifecycle, now, now1,
-        exec := fun i _ => (C02.lookupD oL i).getD missing }
-      let r := step decls mem (C02.lookupD pL) e
-      let c := causeOf (recall mem e) e
-      some (ok (Json.mkObj [
-        ("mem", memJson r.mem),
-        ("reason", .str (reasonStr c.reason)),
-        ("selected", .arr ((cfgOf decls (recall mem e) e).selected.map Json.str).toArray),
-        ("invoked", .arr (r.invoked.map (fun (i, n) => Json.arr #[.str i, .num (JsonNumber.fromNat n)])).toArray),
-        ("P", Json.mkObj (univ.map (fun i => (i, match r.P i with | some rc => C02.recJson rc | none => .null)))),
-        ("closed", .bool r.closed)]))
+      let (decls, mem, P, e, univ) ← stepArgs? j
+      some (ok (stepJson' decls mem e univ (step decls mem P e)))
+  | "C14.stepR", [j] => do      -- the cycle with the results its handlers returned / the patch lost on its way
+      let (decls, mem, P, e, univ) ← stepArgs? j
+      let rs ← (← jArr? (← jField? j "results")).mapM shapeOf?
+      let lost ← jBool? (← jField? j "patchLost")
+      let r := stepR decls mem P e rs lost
+      some (ok (Json.mkObj [("step", stepJson' decls mem e univ r), ("deliveryRaises", .bool (deliveryRaises rs)),
+                            ("wireRaises", .bool (wireRaises rs))]))
   | "C14.admission", [j] => do      -- one admission request served for the object: the memory before → after
       let mem ← memOf? (← jField? j "mem")
       let create ← jBool? (← jField? j "create")
